@@ -405,6 +405,74 @@ def overlapInterpolate (outC inC inV : Nat → Rat) (nOut nIn : Nat) (out0 : Arr
 def arcCorrectRow (outC inC inV : Nat → Rat) (nOut nIn : Nat) (sampling : Rat) : Array Rat :=
   (overlapInterpolate outC inC inV nOut nIn (Array.replicate nOut 0) false true).map (· / sampling)
 
+/-! ## the `ArcCorrection` object as a state machine (src/include/stir/ArcCorrection.h: private members; ArcCorrection.cxx:63-171)
+
+An `ArcCorrection` object caches, between `set_up` and the `do_arc_correction` calls, the edges of the non-arc-corrected bins
+(`_noarccorr_coords`), their widths (`_noarccorr_bin_sizes`), the edges of the arc-corrected bins (`_arccorr_coords`) and
+`tangential_sampling` (plus the two `ProjDataInfo` pointers, represented here by the index ranges).  `set_up` may be called any number
+of times on one object; the code resizes every array to the new range and writes every element, i.e. nothing of the previous
+`set_up` survives.  The model's `setUp` takes the old state as an argument (as the member function does) and returns the new one. -/
+
+/-- the cached members of an `ArcCorrection` object -/
+structure ArcCorrState where
+  inMin : Int                -- `_noarc_corr_proj_data_info_sptr->get_min_tangential_pos_num()` = first index of `_noarccorr_coords`
+  inMax : Int
+  noarcCoords : List Rat     -- `_noarccorr_coords[inMin … inMax+1]`
+  noarcSizes : List Rat      -- `_noarccorr_bin_sizes[inMin … inMax]`
+  outMin : Int               -- `_arc_corr_proj_data_info_sptr->get_min_tangential_pos_num()` = first index of `_arccorr_coords`
+  outMax : Int
+  arcCoords : List Rat       -- `_arccorr_coords[outMin … outMax+1]`
+  sampling : Rat             -- `tangential_sampling`
+  deriving Repr, BEq, DecidableEq
+
+/-- `ArcCorrection::ArcCorrection()`: empty arrays -/
+def ArcCorrState.fresh : ArcCorrState := ⟨0, -1, [], [], 0, -1, [], 0⟩
+
+/-- what the three-argument `set_up` reads from its arguments: the tangential range of the input, the edges
+    `ring_radius * sin((tp ∓ .5) * angular_increment)` for `tp = inMin … inMax + 1` (trigonometry: supplied by the driver, binary64),
+    the number of arc-corrected positions and the bin size -/
+structure ArcSetUpArgs where
+  inMin : Int
+  inMax : Int
+  edges : List Rat
+  numOut : Int
+  binSize : Rat
+  deriving Repr, BEq, DecidableEq
+
+/-- `ProjDataInfo::set_num_tangential_poss` (ProjDataInfo.cxx:124-129): `min = -(n/2)`, `max = min + n - 1` (C division) -/
+def tangRangeOfNum (n : Int) : Int × Int := (-(n.tdiv 2), -(n.tdiv 2) + n - 1)
+
+/-- `b[i] = a[i+1] - a[i]`: `_noarccorr_bin_sizes` (ArcCorrection.cxx:119) -/
+def adjacentDiffs : List Rat → List Rat
+  | a :: b :: rest => (b - a) :: adjacentDiffs (b :: rest)
+  | _ => []
+
+/-- `ArcCorrection::set_up(proj_data_info, num_arccorrected_tangential_poss, bin_size)` (ArcCorrection.cxx:63-136) on an object in
+    state `st`: every cached member is assigned (lines 79, 96, 105, 107-121, 122-134); nothing of `st` is read. -/
+def ArcCorrState.setUp (_st : ArcCorrState) (a : ArcSetUpArgs) : ArcCorrState :=
+  let (omin, omax) := tangRangeOfNum a.numOut
+  { inMin := a.inMin, inMax := a.inMax,
+    noarcCoords := a.edges,
+    noarcSizes := adjacentDiffs a.edges,
+    outMin := omin, outMax := omax,
+    arcCoords := arcCorrCoords omin omax a.binSize,
+    sampling := a.binSize }
+
+/-- the bin size chosen by the overloads `set_up(pdi, n)` and `set_up(pdi)` (ArcCorrection.cxx:142-150, 157-165): the scanner's
+    default bin size, or the central bin size `get_sampling_in_s(Bin(0,0,0,0))` when that is not positive; `mode = 0` is the
+    three-argument overload with its own `bin_size` -/
+def arcSetUpBinSize (mode : Int) (defaultBin centralBin requested : Rat) : Rat :=
+  if mode = 0 then requested else if defaultBin ≤ 0 then centralBin else defaultBin
+
+/-- a history of `set_up` calls on one object -/
+def ArcCorrState.history (st : ArcCorrState) (h : List ArcSetUpArgs) : ArcCorrState := h.foldl ArcCorrState.setUp st
+
+/-- `ArcCorrection::do_arc_correction(Array<1,float>& out, const Array<1,float>& in)` (ArcCorrection.cxx:173-189) with the cached
+    arrays of the object -/
+def ArcCorrState.correctRow (st : ArcCorrState) (inV : List Rat) : Array Rat :=
+  arcCorrectRow (fun k => st.arcCoords.getD k 0) (fun k => st.noarcCoords.getD k 0) (fun k => inV.getD k 0)
+    (st.outMax - st.outMin + 1).toNat (st.inMax - st.inMin + 1).toNat st.sampling
+
 /-! ## detector-based `get_bin` on exact angles (candidates of the nearest-detector rounding) -/
 
 /-- the results a correctly rounded `stir::round(x)` may give when `x` carries a small floating-point error:
